@@ -18,7 +18,7 @@ VERIF = os.path.dirname(os.path.dirname(os.path.abspath(__file__)))
 REPO = os.environ.get("EVAL_REPO", "/repo")
 SEED = os.environ.get("SEED_DIR", "/tmp/seed")
 # round 2 changes are kept as <ID>_C / <ID>_D
-RENAME = {"2": {"A": "C", "B": "D"}, "3": {"A": "E", "B": "F"}, "4": {"A": "G", "B": "H"}, "5": {"A": "I", "B": "J"}, "6": {"A": "K", "B": "L"}, "7": {"A": "M", "B": "N"}, "8": {"A": "N", "B": "O"}}.get(os.environ.get("SEED_ROUND", "1"), {"A": "A", "B": "B"})
+RENAME = {"2": {"A": "C", "B": "D"}, "3": {"A": "E", "B": "F"}, "4": {"A": "G", "B": "H"}, "5": {"A": "I", "B": "J"}, "6": {"A": "K", "B": "L"}, "7": {"A": "M", "B": "N"}, "8": {"A": "N", "B": "O"}, "9": {"A": "O", "B": "P"}}.get(os.environ.get("SEED_ROUND", "1"), {"A": "A", "B": "B"})
 ENV = dict(os.environ, CARGO_NET_OFFLINE="true", CARGO_TARGET_DIR=SEED + "/target_shared")
 ALL = ["C%02d" % i for i in range(1, 20)]
 
